@@ -38,7 +38,7 @@ func (e *Env) minimise(s *Spec, f *Failure, doc *ReplayDoc, match func(*Failure,
 		if writeJSON(cand, &d) != nil {
 			return false
 		}
-		rr := e.RunReplay(f.Variant, s.ID, cand, 60*time.Second, env, s.ExtraArgs...)
+		rr := e.RunReplay(f.Variant, s.ID, cand, 60*time.Second, env, s.extra(e)...)
 		if rr.Trouble != "" {
 			return false
 		}
@@ -110,7 +110,7 @@ func (e *Env) minimise(s *Spec, f *Failure, doc *ReplayDoc, match func(*Failure,
 	if writeJSON(final, &out) != nil {
 		return doc
 	}
-	rr := e.RunReplay(f.Variant, s.ID, final, 0, env, s.ExtraArgs...)
+	rr := e.RunReplay(f.Variant, s.ID, final, 0, env, s.extra(e)...)
 	if !match(f, rr) {
 		return doc
 	}
